@@ -342,13 +342,13 @@ func genDown(r *vlib.R, kind int) string {
 		}
 		return fmt.Sprintf("2;f%s%st;%s;n;-;-", "f", b(r.Chance(9, 10)), strings.Join(codes, ","))
 	case 4: // SERVFAIL, marked or plain
-		return fmt.Sprintf("2;ff%st;-;%s;-;-", b(r.Chance(1, 2)), vlib.Pick(r, []string{"n", "c", "a", "l", "n"}))
+		return fmt.Sprintf("2;ff%st;-;%s;-;-", b(r.Chance(1, 2)), vlib.Pick(r, []string{"n", "c", "a", "l", "n", "k", "p", "s", "m", "r"}))
 	case 5: // other rcodes, some with a DNSSEC EDE that is not a SERVFAIL
 		ede := "-"
 		if r.Chance(1, 3) {
 			ede = fmt.Sprint(vlib.Pick(r, []int{6, 7, 13, 1, 12}))
 		}
-		return fmt.Sprintf("%d;%sftt;%s;%s;-;%s", vlib.Pick(r, []int{1, 4, 5, 6, 9, 10, 15, 0}), b(r.Chance(1, 3)), ede, vlib.Pick(r, []string{"n", "n", "n", "c", "l"}), soa())
+		return fmt.Sprintf("%d;%sftt;%s;%s;-;%s", vlib.Pick(r, []int{1, 4, 5, 6, 9, 10, 15, 0}), b(r.Chance(1, 3)), ede, vlib.Pick(r, []string{"n", "n", "n", "c", "l", "p", "s"}), soa())
 	case 6: // native AAAA (some excluded)
 		var rs []string
 		if r.Chance(1, 3) {
@@ -513,7 +513,7 @@ func flags7(r *vlib.R, internal, rd, cd, wx, isWire bool) string {
 	if wire {
 		wx = false
 	}
-	return vlib.B(internal) + vlib.B(rd) + vlib.B(cd) + vlib.B(wx) + vlib.B(replay) + vlib.B(wire) + vlib.B(twoQ)
+	return vlib.B(internal) + vlib.B(rd) + vlib.B(cd) + vlib.B(wx) + vlib.B(replay) + vlib.B(wire) + vlib.B(twoQ) + vlib.B(r.Chance(1, 4))
 }
 
 var sectPool = []string{"4/60/3/c0000201", "6/60/3/20010db8000000000000000000000053", "o/30/4", "4/300/4/0a000001", "O", "s/300/z/60", "c/60/5/6"}
@@ -754,7 +754,22 @@ func facts() map[string]any {
 		}
 		rendering = append(rendering, row)
 	}
+	// the request-local provenance kinds: attempt limit, deadline, cancellation, failure-probe
+	// limit, local load shed, max recursion, recursion work limit
+	kinds := []error{
+		&middleware.ResolutionAttemptLimitError{Endpoint: "192.0.2.53:53", Transport: "udp"}, context.DeadlineExceeded, context.Canceled,
+		middleware.ErrFailureProbeLimit, fmt.Errorf("shed: %w", middleware.ErrLocalLoadShed), middleware.ErrMaxRecursion,
+		&middleware.RecursionWorkLimitError{Kind: middleware.RecursionWorkInternalQuery, Limit: 1},
+	}
+	marked := []bool{}
+	for _, e := range kinds {
+		gctx, _ := middleware.EnsureResolutionAttemptGuard(context.Background())
+		m := new(dns.Msg)
+		middleware.MarkRequestLocalFailureResponse(gctx, m, e)
+		marked = append(marked, middleware.RequestLocalFailureForResponse(gctx, m) != nil)
+	}
 	f := map[string]any{
+		"request_local_kinds_marked": marked,
 		"label_byte_rendering":       rendering,
 		"legal_prefix_bits":          legal,
 		"dnssec_ede_codes":           dnssec,
